@@ -2,6 +2,7 @@ package h
 
 import (
 	"fmt"
+	"runtime/debug"
 	"hash/fnv"
 	"os"
 	"regexp"
@@ -85,6 +86,7 @@ func RunCheck(p *Prog, o RunOpt) *CheckRun {
 					}
 					w.Escaped = r
 					w.EscapedStr = fmt.Sprintf("%v", r)
+					w.EscapedStack = rapidFrames(string(debug.Stack()))
 					w.StopWhy = "panic"
 				}
 			}()
@@ -372,3 +374,29 @@ func viol(rule, sig, format string, args ...any) Violation {
 }
 
 var rePtr = regexp.MustCompile(`\(\*int\)\(0x[0-9a-f]+\)`)
+
+// rapidFrames keeps the frames of a stack dump that lie in rapid (where did the escaped panic come from).
+func rapidFrames(st string) string {
+	var out []string
+	lines := strings.Split(st, "\n")
+	for i := 0; i+1 < len(lines); i++ {
+		if strings.HasPrefix(lines[i], "pgregory.net/rapid.") {
+			loc := strings.TrimSpace(lines[i+1])
+			if j := strings.Index(loc, " +0x"); j >= 0 {
+				loc = loc[:j]
+			}
+			if k := strings.LastIndex(loc, "/"); k >= 0 {
+				loc = loc[k+1:]
+			}
+			fn := lines[i]
+			if j := strings.Index(fn, "("); j >= 0 && !strings.HasPrefix(fn[len("pgregory.net/rapid."):], "(") {
+				fn = fn[:j]
+			}
+			out = append(out, strings.TrimPrefix(fn, "pgregory.net/rapid.")+"@"+loc)
+			if len(out) >= 8 {
+				break
+			}
+		}
+	}
+	return strings.Join(out, " < ")
+}
